@@ -321,3 +321,16 @@ def validate_batch(module, cfg, workdir, traces, files=None, timeout=1800, worke
       bad.append(v)
   os.unlink(tf)
   return res, done, bad
+
+
+def mc_wrap(module, complex_consts):
+  """For constants whose values the cfg grammar cannot express (tuples, functions, records):
+  returns (mc_module_name, {filename: text}, {const: '<- def'}) to pass to run()/cfg_text()."""
+  mc = 'MC_' + module
+  lines = ['---- MODULE %s ----' % mc, 'EXTENDS %s' % module]
+  subst = {}
+  for k, v in complex_consts.items():
+    lines.append('mc_%s == %s' % (k, v))
+    subst[k] = '<- mc_%s' % k
+  lines.append('====')
+  return mc, {mc + '.tla': '\n'.join(lines) + '\n'}, subst
